@@ -55,6 +55,13 @@ Definition no_lower (bl1 bl2 : list node) : Prop :=
 Definition names_unique (c : config) : Prop := NoDup (map fst c).
 Definition paths_unique (c : config) : Prop := NoDup (map (fun e => fst (snd e)) c).
 
+(** several names may share a path ("aliases"); [aliases_agree]: the names of one path carry one version *)
+Definition aliases_agree (c : config) : Prop :=
+  forall n1 n2 p v1 v2, In (n1, (p, v1)) c -> In (n2, (p, v2)) c -> v1 = v2.
+
+(** a requirement list holds one version per path (an entry may be repeated) *)
+Definition path_fun (l : list node) : Prop := forall x y, In x l -> In y l -> fst x = fst y -> x = y.
+
 (** the requirement list an operation computes before names are attached (the [tx] callback of transformReqs) *)
 Definition op_versions (pick : list node -> nat) (U : universe) (o : op) (rootreqs : list node)
   : outcome (list node) :=
